@@ -536,8 +536,13 @@ func IsShmPointerBatch(batch arrow.RecordBatch) bool {
 	if _, has := md.GetValue(MetaShmOffset); !has {
 		return false
 	}
-	if _, isLog := md.GetValue(MetaLogLevel); isLog {
-		return false
+	// Log and error batches carry a level together with a message. A request
+	// batch may carry vgi_rpc.log_level alone (the level the client asks for)
+	// and can still be a pointer batch.
+	if _, hasLevel := md.GetValue(MetaLogLevel); hasLevel {
+		if _, hasMessage := md.GetValue(MetaLogMessage); hasMessage {
+			return false
+		}
 	}
 	return true
 }
